@@ -1855,23 +1855,26 @@ func (bc *Blockchain) AddBlock(block *block.Block) error {
 		if err != nil {
 			return err
 		}
-	} else {
-		expectedH := bc.GetHeaderHash(block.Index)
-		if expectedH != block.Hash() {
-			return fmt.Errorf("invalid block: hash mismatch: expected %s, got %s", expectedH.StringLE(), block.Hash().StringLE())
-		}
-		// The hash doesn't cover the witness. The known header was verified
-		// with its witness; this one is taken on trust only if it's the same.
-		if !bc.config.SkipBlockVerification {
-			known, err := bc.GetHeader(expectedH)
-			if err != nil || !sameWitness(&known.Script, &block.Script) {
-				prev, err := bc.GetHeader(block.PrevHash)
-				if err != nil {
-					return fmt.Errorf("invalid block: failed to get previous header: %w", err)
-				}
-				if err = bc.verifyHeaderWitnesses(&block.Header, prev); err != nil {
-					return fmt.Errorf("invalid block: %w", err)
-				}
+	}
+	// Whoever has recorded the header of this height - addHeaders above, or
+	// AddHeaders running concurrently (it doesn't take addLock, and addHeaders
+	// silently drops headers that are known by the time it looks) - it has to
+	// be the header of this block.
+	expectedH := bc.GetHeaderHash(block.Index)
+	if expectedH != block.Hash() {
+		return fmt.Errorf("invalid block: hash mismatch: expected %s, got %s", expectedH.StringLE(), block.Hash().StringLE())
+	}
+	// The hash doesn't cover the witness. The known header was verified
+	// with its witness; this one is taken on trust only if it's the same.
+	if !bc.config.SkipBlockVerification {
+		known, err := bc.GetHeader(expectedH)
+		if err != nil || !sameWitness(&known.Script, &block.Script) {
+			prev, err := bc.GetHeader(block.PrevHash)
+			if err != nil {
+				return fmt.Errorf("invalid block: failed to get previous header: %w", err)
+			}
+			if err = bc.verifyHeaderWitnesses(&block.Header, prev); err != nil {
+				return fmt.Errorf("invalid block: %w", err)
 			}
 		}
 	}
